@@ -77,4 +77,7 @@ def get_temp_directory_suffix(files: Union[List[Path], List[str]]) -> str:
     @param files: the list of fj-code files.
     @return: the suffix
     """
-    return f'__{"_".join(os.path.basename(str(file)) for file in files)}__temp_directory'
+    names = "_".join(os.path.basename(str(file)) for file in files)
+    # a directory name is limited (255 bytes on most filesystems): the names of many files do not fit in it
+    short_names = names.encode('utf-8')[:64].decode('utf-8', errors='ignore')
+    return f'__{short_names}__temp_directory'
